@@ -115,6 +115,10 @@ func (pf *ProofMod) Verify(Session []byte, N *big.Int) bool {
 	if pf == nil || !pf.ValidateBasic() {
 		return false
 	}
+	// the Jacobi symbol below is only defined for an odd positive modulus (big.Jacobi panics otherwise)
+	if N == nil || N.Sign() != 1 || N.Bit(0) == 0 {
+		return false
+	}
 	// TODO: add basic properties checker
 	if isQuadraticResidue(pf.W, N) {
 		return false
